@@ -93,6 +93,29 @@ func c07Contains(sup, sub any) bool {
 	return c07Eq(sup, sub)
 }
 
+// c07LeafMiss: the path of a non-null scalar / list leaf of xv (descending through maps
+// only) that cv does not hold with the same value; "" if there is none.
+func c07LeafMiss(xv, cv any) string {
+	xm, ok := xv.(map[string]any)
+	if !ok {
+		if xv == nil || c07Eq(xv, cv) {
+			return ""
+		}
+		return " "
+	}
+	cm, _ := cv.(map[string]any)
+	for _, k := range c07SortedKeys(xm) {
+		var c any
+		if cm != nil {
+			c = cm[k]
+		}
+		if p := c07LeafMiss(xm[k], c); p != "" {
+			return "." + k + strings.TrimSpace(p)
+		}
+	}
+	return ""
+}
+
 func c07Policy(o *c07Obj) string {
 	if o == nil {
 		return ""
@@ -380,6 +403,42 @@ func c07Monitor(op c07Op, served, pre c07Pre, step c07Step, quiet bool) []Mon {
 			add("C07:xr-only-field-on-claim", "an XR-only machinery value in the body of "+w.T)
 		}
 	}
+	// ---- claim write bodies of the server-side syncer, in any world: the metadata of the
+	// claim AS SERVED, the external name being the served XR's when it has one (theorem
+	// meta_xr_to_claim_every_world). No other label / annotation of the XR reaches the claim.
+	if ssa {
+		sen := ""
+		if served.XR != nil {
+			sen = served.XR.Annotations[c07ExtName]
+		}
+		for _, w := range step.Writes {
+			if !strings.HasPrefix(w.T, "claim.") {
+				continue
+			}
+			want := map[string]string{}
+			for k, v := range served.Claim.Annotations {
+				want[k] = v
+			}
+			if sen != "" {
+				want[c07ExtName] = sen
+			}
+			got := w.Body.Annotations
+			if got == nil {
+				got = map[string]string{}
+			}
+			wl := served.Claim.Labels
+			if wl == nil {
+				wl = map[string]string{}
+			}
+			gl := w.Body.Labels
+			if gl == nil {
+				gl = map[string]string{}
+			}
+			if mustJSON(gl) != mustJSON(wl) || mustJSON(got) != mustJSON(want) {
+				add("C07:claim-body-meta-not-from-claim", "the body of "+w.T+" carries labels "+mustJSON(gl)+" / annotations "+mustJSON(got)+", the claim as served has "+mustJSON(wl)+" / "+mustJSON(want)+" (with the served XR's external name)")
+			}
+		}
+	}
 	if j := mustJSON(step.Claim); strings.Contains(j, "xrs-") {
 		add("C07:xr-status-machinery-on-claim", "an XR status machinery value is stored on the claim")
 	} else if strings.Contains(j, "xr-only-") {
@@ -421,6 +480,20 @@ func c07Monitor(op c07Op, served, pre c07Pre, step c07Step, quiet bool) []Mon {
 		case !c07Reserved(k) && c07HasStr(pre.Claim.Annotations, k) && pre.Claim.Annotations[k] == v:
 		default:
 			add("C07:unexpected-xr-meta", "annotation "+k+"="+v+" of the stored XR comes neither from the XR nor from the claim")
+		}
+	}
+	// Kubernetes-reserved labels / annotations the XR held (a user's, another controller's)
+	// are neither changed nor removed (theorems reserved_meta_untouched[_csa])
+	if pre.XR != nil {
+		for k, v := range preLbl {
+			if w, ok := post.Labels[k]; c07Reserved(k) && (!ok || w != v) {
+				add("C07:xr-reserved-meta-changed", "the XR's reserved label "+k+"="+v+" was changed or removed by the sync")
+			}
+		}
+		for k, v := range preAnn {
+			if w, ok := post.Annotations[k]; c07Reserved(k) && (!ok || w != v) {
+				add("C07:xr-reserved-meta-changed", "the XR's reserved annotation "+k+"="+v+" was changed or removed by the sync")
+			}
 		}
 	}
 	// the XR the claim is bound to: the one it referenced, else the generated name
@@ -471,6 +544,12 @@ func c07Monitor(op c07Op, served, pre c07Pre, step c07Step, quiet bool) []Mon {
 			} else if _, isMap := v.(map[string]any); !isMap && v != nil {
 				if !c07Has(pcStatus, k) || !c07Eq(pcStatus[k], v) {
 					add("C07:status-not-propagated", "status."+k+" of the XR did not reach the claim")
+				}
+			} else if isMap {
+				// the override merge descends into maps: every scalar and every list (lists are
+				// atoms: merge_lists_are_atoms) below a user status field reaches the claim as it is
+				if path := c07LeafMiss(v, pcStatus[k]); path != "" {
+					add("C07:status-not-propagated", "status."+k+path+" of the XR did not reach the claim unchanged")
 				}
 			}
 		}
